@@ -18,7 +18,7 @@ pub fn def() -> PropDef {
         replay,
         bounds: |t| json!({"corpus_items": items().len(), "concurrent_items": conc_items().len(), "history_length": t.pick(2, 3), "threads": t.pick(vec![2], vec![2, 3]), "preemption_bound": t.pick(2, 3), "max_executions_per_tuple": 30000}),
         assumptions: &["scheduling granularity = the hook points inside the library; baseline = a fresh process per item", "the free-running pass is sampling: it can only add detections, it is not counted in states/transitions and its silence is no evidence"],
-        budget_s: |t| t.pick(55, 1200),
+        budget_s: |t| t.pick(75, 1200),
         exhaustive: true,
         nshards: 16,
         post: |rep, _| {
